@@ -88,7 +88,7 @@ def build(ctx):
         return pb > 50 and pt["p"] > pb * (1 + 1e-4)
 
     fs = [OIL + "solution_gor_Standing", OIL + "dgor_dpressure_Standing", OIL + "pressure_bubblepoint_Standing"]
-    obs.append(cas_ob(ctx, "oil.drs_dp.below", "p < p_b: dgor_dpressure_Standing == d/dp solution_gor_Standing", drs_below, OILP, fs, drs_real, tol=1e-5, hyp_real=below_real))
+    obs.append(cas_ob(ctx, "oil.drs_dp.below", "p < p_b: dgor_dpressure_Standing == d/dp solution_gor_Standing", drs_below, OILP, fs, drs_real, tol=1e-5, hyp_real=below_real, representations=True))
 
     def drs_above():
         pb, c, rs, dr = rs_paths()
@@ -96,7 +96,7 @@ def build(ctx):
         # parent constant (derivative 0) and hand-coded derivative 0 at and above the bubble point
         return tm.add(b.value, tm.diff(tm.toreal(a.value), p)), tm.rconst(0), tm.ge(p, pb), a, b
 
-    obs.append(cas_ob(ctx, "oil.drs_dp.above", "p >= p_b: solution GOR is constant and dgor_dpressure_Standing == 0", drs_above, OILP, fs, drs_real, tol=1e-5, hyp_real=above_real))
+    obs.append(cas_ob(ctx, "oil.drs_dp.above", "p >= p_b: solution GOR is constant and dgor_dpressure_Standing == 0", drs_above, OILP, fs, drs_real, tol=1e-5, hyp_real=above_real, representations=True))
 
     def drs_branch():
         pb, c, rs, dr = rs_paths()
@@ -166,7 +166,7 @@ def build(ctx):
         a = (pt["T"], pt["p"], pt["api"], pt["gg"], pt["R"])
         return f(*a, pt["Tpc"], pt["Ppc"], pt["Tstd"], pt["pstd"]), g(*a)
 
-    obs.append(cas_ob(ctx, "oil.co_above", "p >= p_b: oil_compressibility_Standing == oil_compressibility_undersat_Spivey", co_above, CO_BOX, cofs, co_above_real, tol=1e-9, hyp_real=above_real))
+    obs.append(cas_ob(ctx, "oil.co_above", "p >= p_b: oil_compressibility_Standing == oil_compressibility_undersat_Spivey", co_above, CO_BOX, cofs, co_above_real, tol=1e-9, hyp_real=above_real, representations=True))
 
     def co_below():
         pb, c, outs = co_paths()
